@@ -82,6 +82,7 @@ func unaryHTTPRequest(ctx context.Context, base string, run *Run, hdr http.Heade
 }
 
 func checkC14(e *core.Env) {
+	curEnv = e
 	e.SetRule("exhaustive matrix: gRPC codes {1..16,17,99,2^31-1,2^32-1} x request context {live, cancelled} x RPC deadline {none, already expired} x renderer {default, writes nothing, writes 418} through httpgrpc.Server.ServeHTTP, the recorded reply fed back to httpgrpc.Channel; plus every HTTP status 100..599 without X-GRPC-Status (unary and stream) and with a contradicting header; distinct = distinct matrix cells")
 	e.Assume("the documented table is parsed from DefaultErrorRenderer's doc comment in /repo/httpgrpc/server.go at run time")
 	table, err := docTable()
@@ -205,7 +206,7 @@ func checkC14(e *core.Env) {
 		}
 	}
 	// header precedence: a header code that contradicts the HTTP status
-	e.Cases("precedence", e.N(300, 3000), func(i int, r *rand.Rand) {
+	e.Cases("precedence", e.N(2000, 100000), func(i int, r *rand.Rand) {
 		st := 100 + r.Intn(500)
 		code := uint32(r.Intn(20))
 		if r.Intn(10) == 0 {
